@@ -140,6 +140,13 @@ var sinks = []sink{
 	{Name: "style_kv_bool", Body: `<div style={ templ.KV(s, true) }>x</div>`, Mode: mStructure, Free: "style"},
 	{Name: "style_safecss", Body: `<input style={ templ.SafeCSS(s) } type="text"/><p>after</p>`, Mode: mStructure, Free: "style"},
 	{Name: "style_safeprop_map", Body: `<div style={ map[string]templ.SafeCSSProperty{"color": templ.SafeCSSProperty(s)} }>x</div>`, Mode: mStructure, Free: "style"},
+	// forms the documentation lists as supported (whether or not the runtime handles them today):
+	// whatever is emitted must stay inside the attribute
+	{Name: "style_kv_safeprop", Body: `<div style={ templ.KV("color", templ.SafeCSSProperty(s)) }>x</div>`, Mode: mStructure, Free: "style"},
+	{Name: "style_kv_safeprop_key", Body: `<div style={ templ.KV(s, templ.SafeCSSProperty("red")) }>x</div>`, Mode: mStructure, Free: "style"},
+	{Name: "style_kv_safeprop_slice", Body: `<div style={ []templ.KeyValue[string, templ.SafeCSSProperty]{templ.KV("color", templ.SafeCSSProperty(s))} }>x</div>`, Mode: mStructure, Free: "style"},
+	{Name: "style_func_any", Body: `<div style={ func() (any, error) { return templ.KV("color", templ.SafeCSSProperty(s)), nil } }>x</div>`, Mode: mStructure, Free: "style"},
+	{Name: "style_kv_safecss_false", Body: `<div style={ templ.KV(templ.SafeCSS(s), false), templ.KV(s, false) } id="z">x</div>`, Mode: mStructure, Free: "style"},
 	{Name: "style_slice_func", Body: `<div style={ []any{"color:red", styleFn(s), templ.KV(templ.SafeCSS(s), true)} }>x</div>`, Mode: mStructure, Free: "style"},
 	// --- href / action after URL typing
 	{Name: "href_url", Body: `<a id="a" href={ templ.URL(s) } target="_blank">x</a>`, Mode: mURL, Free: "href"},
